@@ -53,6 +53,7 @@ type Exec struct {
 	inlined  map[string]int
 	heapSort map[string]string
 	heapElem map[string]types.Type // element type of typed heaps (for typing invariants)
+	heapKey  map[string]string     // key sort of map-value heaps
 	cellSeq  int
 	frameSeq int
 	iterSeq  int
@@ -85,7 +86,7 @@ func (x *Exec) unsup(format string, a ...interface{}) {
 
 func newExec(L *Loaded, db *SpecDB) *Exec {
 	x := &Exec{L: L, db: db, ctx: newSMTCtx(), trusted: map[string]int{}, unverif: map[string]int{},
-		inlined: map[string]int{}, heapSort: map[string]string{}, heapElem: map[string]types.Type{}, maxDepth: 4, maxSteps: 20000, maxPaths: 4000,
+		inlined: map[string]int{}, heapSort: map[string]string{}, heapElem: map[string]types.Type{}, heapKey: map[string]string{}, maxDepth: 4, maxSteps: 20000, maxPaths: 4000,
 		ghostTy: map[string]*STy{}}
 	x.heapSort["$alloc"] = "Int"
 	return x
@@ -148,23 +149,33 @@ func (x *Exec) havocHeap(st *State, name, srt string) string {
 	return v
 }
 
-// typingAxiom: every cell of an integer-typed heap holds a value of its Go type's range.
+// typingAxiom: every cell of a typed heap holds a well-formed value of its Go type (integers in
+// range, references allocated). Asserted for canonical and havoced versions; versions defined by
+// a store inherit it.
 func (x *Exec) typingAxiom(st *State, name, v string) {
 	et, ok := x.heapElem[name]
-	if !ok {
+	if !ok || name == "$alloc" {
 		return
 	}
-	bits, signed, isInt := intInfo(et)
-	if !isInt {
+	var cell, binders string
+	switch {
+	case strings.HasPrefix(name, "E$"):
+		cell = fmt.Sprintf("(select (select %s r) i)", v)
+		binders = "(r Int) (i Int)"
+	case strings.HasPrefix(name, "F$"), strings.HasPrefix(name, "P$"):
+		cell = fmt.Sprintf("(select %s r)", v)
+		binders = "(r Int)"
+	case strings.HasPrefix(name, "MV$"):
+		cell = fmt.Sprintf("(select (select %s r) k)", v)
+		binders = fmt.Sprintf("(r Int) (k %s)", x.heapKey[name])
+	default:
 		return
 	}
-	lo, hi := intRange(bits, signed)
-	switch name[0] {
-	case 'E':
-		st.emit(fmt.Sprintf("(assert (forall ((r Int) (i Int)) (! (and (<= %s (select (select %s r) i)) (<= (select (select %s r) i) %s)) :pattern ((select (select %s r) i)))))", lo, v, v, hi, v))
-	case 'F', 'P':
-		st.emit(fmt.Sprintf("(assert (forall ((r Int)) (! (and (<= %s (select %s r)) (<= (select %s r) %s)) :pattern ((select %s r)))))", lo, v, v, hi, v))
+	wf := x.wfTerm(st, cell, et, 2)
+	if wf == "true" {
+		return
 	}
+	st.emit(fmt.Sprintf("(assert (forall (%s) (! %s :pattern (%s))))", binders, wf, cell))
 }
 
 func (x *Exec) freshConst(st *State, prefix, srt string) string {
@@ -231,7 +242,11 @@ func (x *Exec) boxHeap(elemT types.Type) (string, string) {
 
 func (x *Exec) mapHeaps(mt *types.Map) (string, string, string, string) {
 	ks, vs := x.ctx.sortOf(mt.Key()), x.ctx.sortOf(mt.Elem())
-	n := mangle(ks) + "$" + mangle(vs)
+	n := mangle(ks) + "$" + x.heapTypeKey(mt.Elem())
+	if _, ok := x.heapElem["MV$"+n]; !ok {
+		x.heapElem["MV$"+n] = mt.Elem()
+		x.heapKey["MV$"+n] = ks
+	}
 	return "MD$" + n, fmt.Sprintf("(Array Int (Array %s Bool))", ks), "MV$" + n, fmt.Sprintf("(Array Int (Array %s %s))", ks, vs)
 }
 
@@ -973,10 +988,10 @@ func (x *Exec) equal(st *State, a, b Val, t types.Type) string {
 	switch t.Underlying().(type) {
 	case *types.Slice:
 		// only comparison with nil is legal
-		if b.T == "slice_nil" {
+		if b.T == "slice_nil" || b.T == "(mk_slice 0 0 0 0)" {
 			return eq("(s_arr "+a.T+")", "0")
 		}
-		if a.T == "slice_nil" {
+		if a.T == "slice_nil" || a.T == "(mk_slice 0 0 0 0)" {
 			return eq("(s_arr "+b.T+")", "0")
 		}
 	case *types.Signature:
